@@ -36,9 +36,9 @@ MANIFEST = {
 
 PLAN = {
     # mc: {cfg: TLC workers}; the configs run concurrently with each other and with the replay
-    "C12": {"quick": dict(mc={"MC_Store_c12_quick.cfg": 6, "MC_Store_c12_queries.cfg": 4}, tlc=(70, 24), rnd=260, parts=2, workers=4),
+    "C12": {"quick": dict(mc={"MC_Store_c12_quick.cfg": 6, "MC_Store_c12_queries.cfg": 4}, tlc=(70, 24), rnd=260, large=3, parts=2, workers=4),
             "thorough": dict(mc={"MC_Store_c12_thorough.cfg": 8, "MC_Store_c12_deep.cfg": 4, "MC_Store_c12_quick.cfg": 2,
-                                 "MC_Store_c12_queries.cfg": 2}, tlc=(1500, 30), rnd=6000, parts=8, workers=8)},
+                                 "MC_Store_c12_queries.cfg": 2}, tlc=(1500, 30), rnd=6000, large=40, parts=8, workers=8)},
     "C16": {"quick": dict(mc={"MC_Store_c16_quick.cfg": 8}, dirs=1, cycles=15, max_stores=20000, max_run_ms=1500),
             "thorough": dict(mc={"MC_Store_c16_thorough.cfg": 10, "MC_Store_c16_quick.cfg": 2}, dirs=4, cycles=75, max_stores=60000,
                              max_run_ms=4000)},
@@ -105,7 +105,13 @@ def c12_classes(lines):
             cur = {}
             continue
         via = a.get("via")
-        if ev == "Store":
+        if ev == "StoreRun":
+            ks = fs.run_keys(a)
+            classes.add((ev, bucket(len(ks), (99, 299, 599)), any(k in cur for k in ks)))
+            guard["store-run-of-100-or-more"] += len(ks) >= 100
+            for k in ks:
+                cur[k] = a["tag"]
+        elif ev == "Store":
             k = fs.key(a["v"]["id"])
             classes.add((ev, k in cur, a["v"]["tag"].endswith("L"), k[3] >= fs.BIG_BASE))
             guard["store-overwrite" if k in cur else "store-new"] += 1
@@ -130,6 +136,8 @@ def c12_classes(lines):
             guard["gap-empty-stream" if not own else "gap-nonempty-stream"] += 1
             if ext:
                 guard["gap-with-target-whose-rendering-extends-the-queried-one"] += 1
+            if len(own) >= 100 and gaps and len(cur) - len(own) >= 300:
+                guard["gap-in-large-stream-with-large-neighbours"] += 1
             if gaps:
                 guard["gap-with-missing-sequences"] += 1
         elif ev == "GapBackfill":
@@ -171,7 +179,8 @@ def c12_classes(lines):
 NEEDED_C12 = ["store-new", "store-overwrite", "get-found", "get-absent", "get-absent-with-prefix-related-neighbour", "gap-empty-stream",
               "gap-nonempty-stream", "gap-with-target-whose-rendering-extends-the-queried-one", "gap-with-missing-sequences",
               "govbatch-nonempty", "nongovbatch-nonempty", "backfill-filled-a-gap", "backfill-node-misbehaved",
-              "backfill-node-misbehaved-call-succeeded", "backfill-node-answered-500"]
+              "backfill-node-misbehaved-call-succeeded", "backfill-node-answered-500", "store-run-of-100-or-more",
+              "gap-in-large-stream-with-large-neighbours"]
 
 
 def run_c12(prop, tier, replay):
@@ -191,7 +200,8 @@ def run_c12(prop, tier, replay):
         # 1. the design: exhaustive TLC on the bounded model (runs while the histories are generated and replayed)
         ex, futs = run_mc(work, plan["mc"])
         # 2. histories: TLC behaviours + seeded random histories over the wider identifier domain
-        scenarios = fs.tlc_scenarios(work, plan["tlc"][0], plan["tlc"][1], seed) + fs.gen_scenarios(seed, plan["rnd"])
+        scenarios = (fs.tlc_scenarios(work, plan["tlc"][0], plan["tlc"][1], seed) + fs.gen_scenarios(seed, plan["rnd"])
+                     + fs.gen_large(seed, plan["large"]))
     # 3. the real code on a real Badger directory
     lines, wall = fs.replay_c12(work, scenarios, workers=plan["workers"])
     calls = Counter("%s/%s" % (ln["ev"], ln["a"].get("via", "db")) for ln in lines if ln["ev"] != "Reset")
@@ -311,7 +321,9 @@ def run_c16(prop, tier, replay):
                     if fs.key(b["id"]) == fs.key(ack_closed["a"]["v"]["id"]))):
                 det["acknowledged_on_closed_store"] = ack_closed["a"]
                 sig = "StoreClosed/acknowledged-but-not-found-" + ("after-reopen" if ln["ev"] == "Get" else "after-kill")
-        if ln["ev"] == "Kill":
+        if ln["ev"] == "Kill" and ln["a"].get("mode") == "emulated-torn-file":
+            sig = sig.replace("Kill/", "Kill/probe(%s %s)/" % (ln["a"]["variant"], ln["a"]["file"]), 1)
+        elif ln["ev"] == "Kill":
             # In which cycle were the offending bytes written ("wc" of the lookups after the kill)?  Bytes of the killed
             # cycle that are neither acknowledged nor the one store logged as in flight mean that the parent accounted
             # fewer stores than the child performed: a defect of the harness's bookkeeping, never a verdict on the store.
@@ -353,22 +365,15 @@ def run_c16(prop, tier, replay):
                 break
             hist.append(x)
         verdict.add(sig, {"line": ln, "why": rj.get("why"), "offending": rj.get("spec"), "explanation": det, "history": hist})
-    # Deterministic reproduction of the directory state that a SIGKILL between the creation and the sizing of one of
-    # Badger's log files leaves behind (seen with real kills 3-20 ms into Open, about once in 100-200 cycles; the timed
-    # kills above hit it only by chance): the store must reopen on it at the first attempt (ReopenAlways).
-    probe = stats.get("probe_zero_length_log_file") or {}
-    for name, res in sorted(probe.items()):
-        if isinstance(res, dict) and res.get("first_open_error"):
-            kind = "memtable-wal" if name.endswith(".mem") else "value-log"
-            verdict.add("Reopen/probe/failed:zero-length-%s" % kind,
-                        {"file": name, "first_open_error": res["first_open_error"], "second_open_error": res.get("second_open_error"),
-                         "how": "on a cleanly closed store directory create an empty %s and call db.Open" % name})
     rc = verdict.finish()       # violations first: a store that cannot be reopened ends the history early, and IS the finding
-    if rc == 0 and not replay and not any(isinstance(v, dict) for v in probe.values()):
-        raise vlib.Broken("zero-length log file probe did not run: %r" % probe)
+    probe_kills = [ln for ln in lines if ln["ev"] == "Kill" and ln["a"].get("mode") == "emulated-torn-file"]
+    if rc == 0 and not replay and not ({".mem", ".vlog"} <= {os.path.splitext(k["a"]["file"])[1] for k in probe_kills}):
+        raise vlib.Broken("torn-file probe did not cover Badger's log files: %r" % stats.get("probe_torn_files"))
 
     classes = set()
-    kills = [ln for ln in lines if ln["ev"] == "Kill"]
+    kills = [ln for ln in lines if ln["ev"] == "Kill" and ln["a"].get("mode") != "emulated-torn-file"]
+    for k in probe_kills:
+        classes.add(("probe", k["a"]["file"], k["a"]["variant"]))
     for k in kills:
         a = k["a"]
         classes.add((a.get("mode"), a.get("opened"), bucket(a.get("acks", 0), (0, 9, 99, 999, 9999))))
